@@ -109,8 +109,9 @@ def run(facts):
     def guarded_unique(b, bi):
         return o3.guard_at(b, bi) is not None
 
-    def exempt(b, bi, t, label, root):
-        """is the allocation/copy call at block bi of b on an exempt edge?"""
+    def exempt(b, bi, t, label, root, imm=True):
+        """is the allocation/copy call at block bi of b on an exempt edge?  imm: the call chain from the zero-copy operation entered
+        the function through the into_mut slot of an immutable family (the only way its copying helpers are exempt)"""
         rels = relations_at(b, bi, facts, inline=True)
         if label == "into_boxed_slice":
             for r in rels:
@@ -123,7 +124,7 @@ def run(facts):
             return None
         # inside an into_mut / into_vec slot family function: copies are allowed where the buffer is NOT uniquely held
         if b.did in into_mut_family or b.parent_did in into_mut_family:
-            if b.did in immutable_family_fns:
+            if b.did in immutable_family_fns and imm:
                 return "immutable family (static / owner-backed): is_unique is constant false, a copy is the documented behaviour"
             if not guarded_unique(b, bi):
                 # must be positively on the failed edge of a uniqueness test
@@ -144,6 +145,7 @@ def run(facts):
     # families
     into_mut_family = set()
     immutable_family_fns = set()
+    immutable_slot_fns = set()
     calls_of = {}
     for b in facts.fn_bodies():
         s = []
@@ -189,6 +191,7 @@ def run(facts):
                     const_false = canon(return_expr(ib, facts, inline=True)) == ("const", 0)
             if const_false:
                 immutable_family_fns |= {d}
+                immutable_slot_fns.add(d)
                 # and its direct helper chain that is not shared with reclaimable families
     # helper functions reachable only from immutable families
     reach_from_reclaimable = set()
@@ -228,12 +231,13 @@ def run(facts):
         found = []
         exempted = []
         seen = set()
-        st = [(root, None)]
+        st = [(root, None, False)]
         while st:
-            b, via = st.pop()
-            if b.did in seen:
+            b, via, imm = st.pop()
+            imm = imm or (b.did in immutable_slot_fns)
+            if (b.did, imm) in seen:
                 continue
-            seen.add(b.did)
+            seen.add((b.did, imm))
             for bi, t in b.calls():
                 if b.blocks[bi]["cleanup"]:
                     continue
@@ -249,7 +253,7 @@ def run(facts):
                         for d in slot_fns[x[2]]:
                             cb = facts.by_did.get(d)
                             if cb is not None:
-                                st.append((cb, b))
+                                st.append((cb, b, imm))
                     continue
                 r = fn.get("res") or fn
                 p = r["path"]
@@ -258,13 +262,13 @@ def run(facts):
                     cb = facts.by_did.get(r["did"])
                     if cb is not None:
                         # is the *call* on an exempt edge (then nothing below it counts)?
-                        ex = exempt(b, bi, t, "call", z)
+                        ex = exempt(b, bi, t, "call", z, imm)
                         if ex:
                             exempted.append("%s -> %s: %s" % (b.id.rsplit("::", 1)[-1], cb.id.rsplit("::", 1)[-1], ex))
                             continue
-                        st.append((cb, b))
+                        st.append((cb, b, imm))
                         for c in facts.children.get(cb.did, []):
-                            st.append((c, cb))
+                            st.append((c, cb, imm))
                     continue
                 if label is None:
                     continue
@@ -272,17 +276,17 @@ def run(facts):
                 targ = " ".join(fn.get("args") or [])
                 if label in ("Vec::push", "Vec::with_capacity", "Vec::reserve") and "u8" not in targ and "u8" not in r.get("full", ""):
                     continue
-                ex = exempt(b, bi, t, label, z)
+                ex = exempt(b, bi, t, label, z, imm)
                 if ex:
                     exempted.append("%s in %s: %s" % (label, b.id.rsplit("::", 1)[-1], ex))
                 else:
                     found.append("%s in %s (%s)" % (label, b.id, b.loc(bi)))
             for c in facts.children.get(b.did, []):
-                st.append((c, b))
+                st.append((c, b, imm))
         if found:
             res.bad(z, root.loc(), "byte allocation / copy reachable from a zero-copy operation: " + "; ".join(sorted(set(found))[:4]))
         else:
-            res.ok(z, root.loc(), "no byte alloc/copy reachable through %d functions%s" % (len(seen), ("; exempt: " + "; ".join(sorted(set(exempted)))) if exempted else ""),
+            res.ok(z, root.loc(), "no byte alloc/copy reachable through %d functions%s" % (len({d for d, _ in seen}), ("; exempt: " + "; ".join(sorted(set(exempted)))) if exempted else ""),
                    nontrivial=bool(exempted))
     res.floor("zero_copy_ops", n, 18)
     # clone: the (ptr, len) given to the slot function are the (ptr, len) of every handle it can return, on every
